@@ -228,6 +228,7 @@ func (s *Scope) buildFunction(cu *CodeUtils, f *Function, v *parser.Function) {
 	ns.MustReserve("p", _p("p"))     // the receiver of method
 	ns.MustReserve("err", _p("err")) // error
 	ns.MustReserve("ctx", _p("ctx")) // first parameter
+	ns.MustReserve("nil", _p("nil")) // generated code compares with nil
 
 	if !v.Void {
 		ns.MustReserve("r", _p("r"))             // response
@@ -320,7 +321,7 @@ func (s *Scope) buildStructLike(cu *CodeUtils, v *parser.StructLike, usedName ..
 	s.globals.MustReserve(fids, _p("ids:"+nn))
 
 	// built-in methods
-	funcs := []string{"Read", "Write", "String"}
+	funcs := []string{"Read", "Write", "String", "InitDefault"}
 	if !strings.HasPrefix(v.Name, prefix) {
 		if v.Category == "union" {
 			funcs = append(funcs, "CountSetFields")
